@@ -617,13 +617,29 @@ def g_contains_point_flat(ctx, b, hs):
     return any(is_call(x, 'Path::flatten') for x in Dp.visited) and not any(x == ('param', 1) and False for x in Dp.visited)
 
 
+def _is_y2(an):
+    """recogniser for "the edge's last row": the field y2 of the edge being built, or the very value stored into it"""
+    vals = set()
+    for a, v, pt, kind in an.stores:
+        t = strip_all(a)
+        if kind == 'assign' and t[0] == 'field' and t[2] == 'y2':
+            vals.add(nosite(strip_all(v)))
+    def f(B):
+        if B is None:
+            return False
+        B0 = strip_all(B)
+        return (B0[0] == 'field' and B0[2] == 'y2') or nosite(B0) in vals
+    return f
+
+
 def g_add_edge_row(ctx, b, hs):
     """edge_starts[cury]: cury < height (y1 >= height returned), cury >= 0 (negative rows stepped), and apply_path returns when height == 0"""
     an = ctx.an(b)
     cfg = an.cfg
     lo = bool_edges(ctx, b, lambda op, A, B: op == '!Lt' and B is not None and const_val(B) == 0 and A[0] in ('phi', 'rec', 'call', 'field'))
     hi = bool_edges(ctx, b, lambda op, A, B: op in ('!Ge', 'Lt') and B is not None and is_self_field(B, 'height'))
-    hz = bool_edges(ctx, b, lambda op, A, B: op in ('!Ge', 'Lt') and B is not None and B[0] == 'field' and B[2] == 'y2')
+    isy2 = _is_y2(an)
+    hz = bool_edges(ctx, b, lambda op, A, B: op in ('!Ge', 'Lt') and isy2(B))
     ok = bool(lo) and bool(hi) and bool(hz)
     for h in hs:
         ok = ok and cut_by_edges(cfg, h[2], lo) and cut_by_edges(cfg, h[2], hi) and cut_by_edges(cfg, h[2], hz)
@@ -650,7 +666,8 @@ def g_add_edge_row(ctx, b, hs):
 
 def g_add_edge_slope(ctx, b, hs):
     an = ctx.an(b)
-    e = bool_edges(ctx, b, lambda op, A, B: op in ('!Ge', 'Lt') and B is not None and B[0] == 'field' and B[2] == 'y2')
+    isy2 = _is_y2(an)
+    e = bool_edges(ctx, b, lambda op, A, B: op in ('!Ge', 'Lt') and isy2(B))
     return bool(e) and all(cut_by_edges(an.cfg, h[2], e) for h in hs)
 
 
@@ -774,6 +791,18 @@ def r07_1(ctx):
                 continue
             cnt, cls = ent[0], ent[1]
             by_class[cls] = by_class.get(cls, 0) + len(lst)
+            if len(lst) > cnt and kind == 'index':
+                # the same element of the same place indexed again (a read split from its write, a second branch that
+                # stores to the same slot) is the audited access, not a new one
+                seen_idx = {}
+                for h in lst:
+                    try:
+                        k5 = (nosite(strip_all(h[3].get('base'))), poly(h[3].get('index')))
+                    except Exception:
+                        k5 = id(h)
+                    seen_idx.setdefault(k5, h)
+                if len(seen_idx) <= cnt:
+                    lst = list(seen_idx.values())
             if len(lst) > cnt:
                 extra = [h for h in lst if auto_discharge(ctx, b, h) is None]
                 # more instances than audited: the surplus must be auto-dischargeable
